@@ -158,7 +158,10 @@ func LenOf(v ssa.Value) (ssa.Value, bool) {
 // NonEmptyEdges returns the CFG edges (block index, successor slot) that are taken only when len(x) > 0 for a
 // slice equivalent to x: the true edge of len>0, len>=1, len!=0 (and mirrored forms), the false edge of their
 // negations, and the body edge of a counting loop `i < len(x)` whose counter starts at a constant >= 0.
-func NonEmptyEdges(fn *ssa.Function, x ssa.Value) EdgeSet {
+func NonEmptyEdges(fn *ssa.Function, x ssa.Value) EdgeSet { return LenAtLeastEdges(fn, x, 1) }
+
+// LenAtLeastEdges returns the CFG edges that are taken only when len(x) >= m (m >= 1) for a slice equivalent to x.
+func LenAtLeastEdges(fn *ssa.Function, x ssa.Value, m int64) EdgeSet {
 	out := EdgeSet{}
 	for _, b := range fn.Blocks {
 		ifi := BlockIf(b)
@@ -189,12 +192,12 @@ func NonEmptyEdges(fn *ssa.Function, x ssa.Value) EdgeSet {
 		edge := -1 // 0: true edge implies non-empty, 1: false edge does
 		if k, isC := ConstInt(rv); isC {
 			switch {
-			case op == token.GTR && k >= 0, op == token.GEQ && k >= 1, op == token.NEQ && k == 0:
-				edge = 0
-			case op == token.EQL && k == 0, op == token.LEQ && k <= 0, op == token.LSS && k <= 1:
-				edge = 1
+			case op == token.GTR && k >= m-1, op == token.GEQ && k >= m, op == token.NEQ && k == 0 && m == 1, op == token.EQL && k >= m:
+				edge = 0 // len > k, len >= k, len != 0, len == k  imply  len >= m
+			case op == token.EQL && k == 0 && m == 1, op == token.LEQ && k >= m-1, op == token.LSS && k >= m, op == token.NEQ && k >= m:
+				edge = 1 // the negations: not(len <= k) = len > k, not(len < k) = len >= k, not(len != k) = len == k
 			}
-		} else if op == token.GTR || op == token.GEQ && false {
+		} else if m == 1 && (op == token.GTR || op == token.GEQ && false) {
 			// len(x) > i with i a non-negative counter
 			if nonNegCounter(rv) {
 				edge = 0
